@@ -8,6 +8,7 @@ import Model.Lib.Wallace
 import Model.Lib.Prng
 import Model.Gen.Conv
 import Model.Lib.Muxes
+import Model.Lib.MatrixIndex
 import Model.Pass.Cond
 import Model.Sim.FastSim
 /-! `basic` command: the Lean models of the bit-level generators on concrete operands. -/
@@ -163,6 +164,7 @@ def cmdConv (j : Lean.Json) : Except String Lean.Json := do
     | "val_to_signed" => pure (one (valToSigned a b))
     | "twos_comp_repr" => pure (one (twosCompRepr a b))
     | "rev_twos_comp_repr" => pure (one (revTwosCompRepr a b))
+    | "matrix_cell_slice" => pure (pair (Pyrtl.MatrixIndex.cellSlice a.toNat b))
     | _ => throw s!"unknown conv fn {fn}"
   return Lean.Json.mkObj [("ok", .bool true), ("vals", .arr outs.toArray)]
 
